@@ -1,6 +1,7 @@
 package main
 
 import (
+	"context"
 	"fmt"
 	"sort"
 	"strings"
@@ -33,6 +34,8 @@ func (o Op) String() string {
 	switch o.K {
 	case "acq":
 		return "Acquire(" + o.L + ")"
+	case "acqdead":
+		return "AcquireCtx(" + o.L + ", ended context)"
 	case "rel":
 		return "Release(" + o.L + ")"
 	case "exp":
@@ -120,6 +123,9 @@ func (r *Ref) apply(o Op) (want bool, situation string) {
 	case "adv":
 		r.Now += r.resolve(o)
 		return false, ""
+	case "acqdead":
+		// an Acquire under a context that has already ended may only fail; it leaves the key alone
+		return false, "ended-context"
 	}
 	key := lockKey[o.L]
 	h := r.holder(key)
@@ -232,7 +238,7 @@ func newWorld(e *env) (*world, error) {
 
 func (w *world) do(o Op, ms int64) (bool, error) {
 	switch o.K {
-	case "acq", "rel":
+	case "acq", "rel", "acqdead":
 		if !w.e.wide {
 			w.e.open()
 			defer w.e.close()
@@ -241,6 +247,10 @@ func (w *world) do(o Op, ms int64) (bool, error) {
 		var err error
 		if o.K == "acq" {
 			ok, err = w.locks[o.L].Acquire()
+		} else if o.K == "acqdead" {
+			ctx, cancel := context.WithCancel(context.Background())
+			cancel()
+			ok, _ = w.locks[o.L].AcquireCtx(ctx) // the error is the expected answer
 		} else {
 			ok, err = w.locks[o.L].Release()
 		}
